@@ -364,8 +364,8 @@ PROPS["C06"] = {
     "harnesses": [
         {"entry": "format/msgpack.VerifNoCrash", "group": "nc-msgpack", "clause": "msgpack never panics", "bounds": {"input_bytes": "0..4"}},
         {"entry": "format/msgpack.VerifNoCrashLong", "group": "nc-msgpack", "tier": "thorough", "clause": "msgpack never panics", "bounds": {"input_bytes": "0..6"}},
-        {"entry": "format/cbor.VerifNoCrash", "group": "nc-cbor", "clause": "cbor never panics", "bounds": {"input_bytes": "0..4"}},
-        {"entry": "format/cbor.VerifNoCrashLong", "group": "nc-cbor", "tier": "thorough", "clause": "cbor never panics", "bounds": {"input_bytes": "0..6"}},
+        {"entry": "format/cbor.VerifNoCrash", "group": "nc-cbor", "clause": "cbor never panics", "bounds": {"input_bytes": "0..3"}},
+        {"entry": "format/cbor.VerifNoCrashLong", "group": "nc-cbor", "tier": "thorough", "clause": "cbor never panics", "bounds": {"input_bytes": "0..4"}},
         {"entry": "format/bson.VerifNoCrash", "group": "nc-bson", "clause": "bson never panics", "bounds": {"input_bytes": "0..6"}},
         {"entry": "format/bson.VerifNoCrashLong", "group": "nc-bson", "tier": "thorough", "clause": "bson never panics", "bounds": {"input_bytes": "0..8"}},
         {"entry": "format/bencode.VerifNoCrash", "group": "nc-bencode", "clause": "bencode never panics", "bounds": {"input_bytes": "0..4"}},
